@@ -600,16 +600,21 @@ func genScenario(r *vh.Rng, variant string, sidCounter *int) scenario {
 			o = op{kind: "insert", user: u, c: c, sid: fmt.Sprintf("s%d", *sidCounter)}
 			cnt := 1 + r.Intn(3)
 			seen := map[int]bool{}
+			// never an id that may already be in the collection, never an id twice in one batch: a
+			// refused batch can crash the whole process on this code base (index goroutines outlive the
+			// rolled-back transaction: DESIGN.md section 8 no. 4, property C07), which is not C16's business
 			for j := 0; j < cnt; j++ {
 				id := 1 + r.Intn(12)
-				if (have[k][id] || seen[id]) && !r.Chance(15) {
+				if have[k][id] || seen[id] {
 					continue
 				}
 				seen[id] = true
 				o.pts = append(o.pts, pt{id, int64(r.Intn(101)) - 50})
 			}
-			if len(o.pts) == 0 {
-				o.pts = []pt{{13 + r.Intn(5), int64(r.Intn(9))}}
+			for id := 13; len(o.pts) == 0; id++ {
+				if !have[k][id] {
+					o.pts = []pt{{id, int64(r.Intn(9))}}
+				}
 			}
 			if have[k] == nil {
 				have[k] = map[int]bool{}
@@ -772,17 +777,21 @@ func main() {
 	rng := vh.NewRng(*seed)
 	o := vh.NewOut(*dir)
 	variant := probeVariant()
-	shardTimeout := 30
+	shardTimeout := 10
 	if variant == "pinned" {
 		shardTimeout = 1
 	}
 	o.Emit("variant", "variant "+variant, "ok", false)
 	sid := 0
 	scs := witnessScenarios(&sid)
+	if variant == "pinned" && *n > 60 {
+		*n = 60 // every "sleep" costs 1.6 s on this variant and the verdict does not depend on more scenarios
+	}
 	for i := 0; i < *n; i++ {
 		scs = append(scs, genScenario(rng, variant, &sid))
 	}
 	multi := 0
+	nFail := 0
 	t0 := time.Now()
 	for si, sc := range scs {
 		users := scenarioUsers(sc)
@@ -817,9 +826,16 @@ func main() {
 			}
 		}
 		e.close()
+		if nFail >= 12 {
+			continue // enough witnesses; keep the correspondence going
+		}
 		if v := oracle(sc, shardTimeout, full, fullDisk); v != nil {
-			// shrink: drop ops of the other users one at a time while the victim still sees a difference
-			min := shrink(sc, shardTimeout, v.victim, v.at >= 0, time.Now().Add(25*time.Second))
+			nFail++
+			// shrink (first witnesses only): drop ops one at a time while the victim still sees a difference
+			min := sc
+			if nFail <= 2 {
+				min = shrink(sc, shardTimeout, v.victim, v.at >= 0, time.Now().Add(20*time.Second))
+			}
 			rl := []string{"variant " + variant, op{kind: "reset", maxCols: sc.maxCols, maxPts: sc.maxPts}.line()}
 			for _, p := range min.ops {
 				rl = append(rl, p.line())
